@@ -228,6 +228,7 @@ type Instance struct {
 	recOn   bool
 	height  int64
 	iavl    bool
+	qn      uint64
 }
 
 var sharedReg codectypes.InterfaceRegistry
@@ -422,8 +423,8 @@ func (in *Instance) Materialise(s M) {
 	}
 	st := in.ctx.KVStore(in.ledKey)
 	bal := getm(s, "bal")
-	for sym, v := range bal {
-		setBig(st, balKey(in.T.Addr20(sym), in.T.MintDenom), in.T.Amount(seti(v)))
+	for _, sym := range sortedKeys(bal) { // deterministic write order: the IAVL root depends on it
+		setBig(st, balKey(in.T.Addr20(sym), in.T.MintDenom), in.T.Amount(seti(bal[sym])))
 	}
 	setBig(st, supKey(in.T.MintDenom), in.T.Amount(geti(s, "supply")))
 }
